@@ -17,6 +17,13 @@ CLAIMED = {
  "C04": dict(cat="exploration", technique="exhaustive small-scope table judged by a backtracking reference list matcher",
    text="For 11 list kinds, every pattern word over {a, b, x, y, ...} of length<=4 with 1-3 elisions is run against every list over {a,b,c} of length 0-5 (exhaustive in that sub-space, 1.4M pairs) plus random longer lists and 'for ... {' against all loop-header shapes; the real engine's output for each batch is compared with the reference (match iff some choice of runs works; runs reproduced complete, in order, leftmost-shortest).",
    note="Exhaustive only inside the enumerated bounds; elements are atoms; elision layouts are the two pairing situations the statement defines (context-line elisions, or one elision per side).", ref="5/C04"),
+ "C05": dict(cat="exploration", technique="reference-located sites + per-declaration canonical equality on real-world and generated surroundings",
+   text="27 patterns that occur in real code are applied to a seed-determined sample of the Go standard library (~6800 files present offline) and random patterns to generated files of 20-60 declarations; for every run the monitor checks package clause, import set, number and order of declarations, canonical identity of every declaration in which the reference finds no instance, and the reference expectation for declarations with sites. Library API and in-place CLI.",
+   note="Trusted: go/parser; canonical trees ignore layout/comments/redundant parentheses; engine errors are left to C03/C07 (inconclusive here).", ref="5/C05"),
+ "C17": dict(cat="exploration", technique="comment-attribution monitor (per-declaration comment lists + global multiset) over generated and real files",
+   text="Comment-dense generated files and standard-library files are rewritten by 12 patches (elided statement patterns, signature-changing declaration patterns, multi-change patches) through API and CLI; comments are attributed to top-level declarations by source interval on both sides and compared for every declaration whose syntax is canonically unchanged; header comments and global multiset inclusion are checked for every run.",
+   note="Import declarations only take part in the multiset check; a detached comment must survive only when both neighbouring declarations are untouched (the statement speaks of doc, interior and trailing comments).", ref="5/C17"),
+#NEXT
 }
 
 NOT_YET = {}
